@@ -137,7 +137,7 @@ def set_extra(cases):
                 a, b = inst.split(">")
                 (ts_, ps), (td, pd) = parse_inst(a), parse_inst(b)
                 ex["xcv"].append((ts_, ps, td, pd, None))
-            elif op in ("acc", "elt", "elt2", "rol"):
+            elif op in ("acc", "elt", "elt2", "rol", "seq"):
                 ex["acc"].append(parse_inst(inst))
             elif op.startswith("p") and op[1:2].isdigit():
                 if op != "p6crit":
@@ -237,6 +237,8 @@ def gen_sources(ctx, nparts, thorough, tag):
             L.append("using AX%d = %s;" % (n, ctype(t, p)))
             ent.append('    {"acc/%s/%s", &run_acc<%s, AX%d>},' % (l, iname(t, p), LAYC[l], n))
             ent.append('    {"rol/%s/%s", &run_rol<%s, AX%d>},' % (l, iname(t, p), LAYC[l], n))
+            if j == 0:
+                ent.append('    {"seq/%s", &run_seq<AX%d>},' % (iname(t, p), n))
             if l != "S" and (n % 2 == 0 or n >= len(acc_insts())):
                 ent.append('    {"elt/%s/%s", &run_elt<%s, AX%d>},' % (l, iname(t, p), LAYC[l], n))
                 ent.append('    {"elt2/%s/%s", &run_elt2<%s, AX%d>},' % (l, iname(t, p), LAYC[l], n))
@@ -255,7 +257,8 @@ def gen_sources(ctx, nparts, thorough, tag):
     probes = {}
     PI = all_probe()
     for pn, ops in ((1, [("p1cvt", "run_p1cvt", "LR"), ("p1fs", "run_p1fs", "LR")]), (2, [("p2conv", "run_p2conv", "LRS")]),
-                    (3, [("p3alloc", "run_p3alloc", "LR")]), (4, [("p4eq", "run_p4eq", "LR")]), (5, [("p5r0", "run_p5r0", "LR")]), (7, [("p7tm", "run_p7tm", "LR")])):
+                    (3, [("p3alloc", "run_p3alloc", "LR")]), (4, [("p4eq", "run_p4eq", "LR")]), (5, [("p5r0", "run_p5r0", "LR")]), (7, [("p7tm", "run_p7tm", "LR")]),
+                    (8, [("p8meq", "run_p8meq", "LR")])):
         L = ['#include "c14_probes.hh"', "namespace c14 {"]
         for n, (t, p) in enumerate(PI):
             L.append("using P%d = %s;" % (n, ctype(t, p)))
@@ -382,6 +385,38 @@ def lst(v):
     return ",".join(str(x) for x in v) if v else "-"
 
 
+def asym_eq_cases(rng, op, nm, t, E, n, lay=None):
+    """Second cross-cutting audit (kinds B + D): operator== with the two sides of DIFFERENT extents / index types.  Side a has
+    the instantiation's extents type (index type t); side b is dextents<long, rank> with extents E2 / strides S2 = those of a,
+    or differing by 1, or by 2^bits(t) in one dimension (values that only the wider side can hold)."""
+    R = len(E)
+    w = BITS[t][0]
+    head = "%s %s%s" % (op, nm, " lay=%s" % lay if lay else "")
+    def line(S, E2, S2):
+        return "%s E=%s%s E2=%s%s" % (head, lst(E), " S=%s" % lst(S) if op == "seq" else "", lst(E2), " S2=%s" % lst(S2) if op == "seq" else "")
+    Ss = [unique_strides(rng, E, "pad" if n % 2 else "perm")] if op == "seq" else [[]]
+    if op == "seq" and R > 0:
+        Ss.append(strides_right([max(x, 1) for x in E]) if n % 2 else strides_left([max(x, 1) for x in E]))
+    out = []
+    for S in Ss:
+        if op == "seq" and (any(not fits(t, v) for v in S) or not fits(t, rss_stride(E, S))):
+            continue
+        out.append(line(S, E, S))
+        if R == 0:
+            continue
+        r, r2 = rng.randrange(R), rng.randrange(R)
+        bump = lambda v, k, dlt: [x + (dlt if q == k else 0) for q, x in enumerate(v)]
+        out.append(line(S, bump(E, r, 1), S))
+        if op == "seq":
+            out.append(line(S, E, bump(S, r2, 1)))
+        if w < 64:
+            out.append(line(S, bump(E, r, 1 << w), S))
+            if op == "seq":
+                out.append(line(S, E, bump(S, r2, 1 << w)))
+                out.append(line(S, E, bump(S, r, 3 << w)))
+    return out
+
+
 def gen(ctx, I, PI):
     rng = ctx.rng("gen")
     quick = ctx.quick
@@ -465,6 +500,7 @@ def gen(ctx, I, PI):
                 if l == "S" and (max(Sx + [0]) > 30000 or rss_stride(E, Sx) > 3000):
                     Sx = unique_strides(rng, E, "perm")
                 cases.append("rol %s lay=%s E=%s S=%s base=%d" % (nm, l, lst(E), lst(Sx), rng.choice([0, 2])))
+            cases += asym_eq_cases(rng, "seq", nm, t, E, n)
             if acc_insts().index((t, p)) % 2 == 0:
                 for l in "LR":
                     cases.append("elt %s lay=%s E=%s" % (nm, l, lst(E)))
@@ -517,6 +553,8 @@ def gen(ctx, I, PI):
                     cases.append("p4eq %s lay=%s E=%s S=%s" % (nm, l, lst(E), lst(Sc)))
                     Sp = unique_strides(rng, E, "pad")
                     cases.append("p4eq %s lay=%s E=%s S=%s" % (nm, l, lst(E), lst(Sp)))
+            for l in "LR":
+                cases += asym_eq_cases(rng, "p8meq", nm, t, E, len(cases), lay=l)
             for l in ("LRS" if p != () else "LR"):
                 S = unique_strides(rng, E, "pad")
                 cases.append("p2conv %s lay=%s E=%s S=%s base=%d" % (nm, l, lst(E), lst(S), rng.choice([0, 2])))
@@ -965,6 +1003,35 @@ def oracle(case, impl, model):
         return None if impl == model else ("crit", "span::crbegin()/crend(): %s, reversed sequence is %s" % (impl, model))
     if op == "p4eq":
         return None if impl == model else ("eq", "operator== : %s, expected %s" % (impl, model))
+    if op in ("seq", "p8meq"):
+        # the verdict is computed from the implementation's OWN report of both sides: == must be the exact comparison of the
+        # reported extents (and strides), whatever the index types of the two sides, and symmetric
+        d = kvs(impl)
+        E2, S2 = il(cd.get("E2")), il(cd.get("S2"))
+        w = BITS[inst[0]][0]
+        ea, eb = il(d.get("ea")), il(d.get("eb"))
+        if ea != E or eb != E2:
+            return "construct", "%s: extents reported %s / %s, constructed from %s / %s" % (op, ea, eb, E, E2)
+        xeq = (ea == eb)
+        narrowed = lambda u, v: u != v and len(u) == len(v) and all((x - y) % (1 << w) == 0 for x, y in zip(u, v))
+        if op == "p8meq":
+            if d.get("ab") != str(int(xeq)) or d.get("ba") != str(int(xeq)) or d.get("ne") != str(int(not xeq)):
+                return ("eq-narrowed" if narrowed(ea, eb) else "eq"), "mapping == across extents types: a==b %s, b==a %s, a!=b %s; extents %s vs %s" % (
+                    d.get("ab"), d.get("ba"), d.get("ne"), ea, eb)
+            return None
+        sa, sb, sl, sr = il(d.get("sa")), il(d.get("sb")), il(d.get("sl")), il(d.get("sr"))
+        if sa != S or sb != S2:
+            return "construct", "seq: strides reported %s / %s, constructed from %s / %s" % (sa, sb, S, S2)
+        if d.get("xab") != str(int(xeq)) or d.get("xba") != str(int(xeq)):
+            return ("extents-eq-narrowed" if narrowed(ea, eb) else "extents-eq"), "extents == across index types: a==b %s, b==a %s; extents %s vs %s" % (
+                d.get("xab"), d.get("xba"), ea, eb)
+        for key, other, what in (("sab", sb, "a == b"), ("sba", sb, "b == a"), ("sal", sl, "a == layout_left(b's extents)"), ("sar", sr, "a == layout_right(b's extents)")):
+            want = xeq and (not ea or sa == other)
+            if d.get(key) != str(int(want)):
+                asp = "stride-eq-narrowed" if (xeq and narrowed(sa, other) and d.get(key) == "1") else "stride-eq"
+                return asp, "layout_stride mapping == across index types: %s is %s, but extents %s vs %s, strides %s vs %s (exact comparison: %s)" % (
+                    what, d.get(key), ea, eb, sa, other, int(want))
+        return None
     if op == "span":
         return None if impl == model else (cd.get("f", "?"), "span: impl '%s', sequence semantics gives '%s'" % (impl, model))
     return "unknown-op", "unknown op"
